@@ -54,6 +54,12 @@ CLAIMS["C13"] = dict(
    note=TRUST + ". Assumed (listed per run): the byte-string theory axioms (prepend/untag, concat, sub-string, byte1), encoding/binary little-endian and varint contracts, math.Float64bits as a bijection on bit patterns (floats are modelled as reals, so NaN payloads and -0 are outside the model), time.MarshalBinary/UnmarshalBinary inverse on instants, the bbolt bucket model (Put/Get/Delete/CreateBucket, cursor enumerates the key set in byte order, a freshly created bucket is empty, a bucket has finitely many keys), stored payloads under a bool/int/float tag have the size the setters write. Not proved: nested maps/lists inside containers (only frames and error propagation), lists longer than 2^31-1, GetMap/GetList on buckets with a pending error.",
    technique="contract-based deductive verification: byte-level postconditions on setters/getters, loop invariants, ghost map-iteration set, lemma functions composed from contracts, SMT (z3/cvc5)")
 
+CLAIMS["C11"] = dict(
+   text="ParseZqlString (after the single-pass repair, fix commit in known_findings.txt) is proved, by a loop invariant quantified over all strings s, to return s for every literal whose body is the escaping of s (backslash and double quote backslash-escaped, \\f \\n \\r \\t for the four control characters the grammar cannot take raw; escFrom is the recursive definition of that body); in particular an escaped backslash followed by a letter is consumed as one escape and the letter is copied. Lemma functions behind the verif tag: verifLiteral builds the literal of s and is proved to produce exactly quote + escFrom(s) + quote; ParseZqlString(verifLiteral(s)) == s for every s; verifLiteral(a) == verifLiteral(b) implies a == b.",
+   design="5/C11",
+   note=TRUST + ". Assumed: the byte-string theory axioms (concat, sub-string, byte1), strings.TrimPrefix/TrimSuffix contracts; that the lexer hands VisitTerminal exactly the STRING token text and that the grammar admits exactly these escapes (ZitiQl.g4, read, not verified); that a comparison node compares with the value ParseZqlString returned (listener code covered by the C10 sweep for safety only). Strings longer than 2^62 bytes are outside the model.",
+   technique="contract-based deductive verification: quantified loop invariant against a recursive spec function, lemma functions composed from contracts, SMT (z3/cvc5)")
+
 NA = {
  "C12": "not applicable to contract-based verification of the repository's Go code: how 'a and b or c', parentheses, keyword case and whitespace group is decided by ANTLR's ATN interpreter (AdaptivePredict) running the serialized grammar embedded in zitiql_parser.go; the generated Go functions are a table-driven shell around it, so no precondition/postcondition on a repository function can state 'the tree for this text is that tree', and the ANTLR tool needed to regenerate or analyse the grammar is not available here. (The listener half - each connective node evaluates as its connective - is contract-shaped and is part of the C10 sweep's dispatch contracts.) Observed while reading: 'a and b or c' groups as 'a and (b or c)'; recorded in DESIGN.md section 7 for the maintainers.",
  "C17": "not applicable: equality of the whole database across close/rename/reopen, what concurrent transactions observe during the swap, and restore listeners firing after the swap are file-system and schedule properties of bbolt and the OS (os.Rename, file locks, goroutines); contracts over single calls of repository functions cannot express them, and the only contract-shaped fragment (DbImpl.GetTimelineId's flag logic) does not decide the property.",
